@@ -46,6 +46,7 @@ SRVWRITETHROUGH = dict(pkg="./server", test="TestVerifServerWriteThrough", name=
 UPLOADLEAK = dict(pkg="./server", test="TestVerifServerRefusedUploadLeaks", name="uploadleak", diff=False)
 SRVBACKENDWRITE = dict(pkg="./server", test="TestVerifServerWriteExistingInBackend", name="srvbackendwrite", diff=False)
 SRVNEGSIZE = dict(pkg="./server", test="TestVerifServerNegativeSizes", name="srvnegsize", diff=False)
+SRVINLINEFOREIGN = dict(pkg="./server", test="TestVerifServerInliningForeignDigest", name="srvinlineforeign", diff=True)
 SRVPOOL = dict(pkg="./server", test="TestVerifServerFailedReadThenOverlappingReads", name="srvpool", diff=False)
 SRVPROXYLIMIT = dict(pkg="./server", test="TestVerifServerProxyLimit", name="srvproxylimit", diff=False)
 SRVRTHARD = dict(pkg="./server", test="TestVerifServerReadThroughHardLimit", name="srvrthard", diff=False)
@@ -126,7 +127,7 @@ PROPS = {
         level_text="Theorems on M8: a hit implies every referenced blob (tree blobs, tree root/child files, non-inlined output files, stdout, stderr) is present; absence yields a miss, never an error or partial result; all present yields a hit. Server-level oracle over every subset of absent blobs; the decision compared with the model. Fail-fast walk with the worker that reports the miss parked inside cancel().",
         level_note=NOTE + "the fail-fast presence check is C10's model; recency refresh of dependencies is checked at the disk level.", technique=TECH),
     "C11": dict(
-        lean="BR.Props.C11", runs=[SRVAC, SRVACDEPS, SRVINLINE], trusted_base=["protobuf / protojson codecs (round-trip law assumed, real ones exercised by the harness)"], assumptions=[],
+        lean="BR.Props.C11", runs=[SRVAC, SRVACDEPS, SRVINLINE, SRVINLINEFOREIGN], trusted_base=["protobuf / protojson codecs (round-trip law assumed, real ones exercised by the harness)"], assumptions=[],
         level_text="Theorems on M8's validator: each invalid class is rejected wherever it occurs, acceptance iff every component is well formed; validator compared with validate.ActionResult on generated messages; server oracle: rejected => nothing served, accepted => served equal modulo worker name, JSON = proto, latest wins. Read-side inlining (model M8b): contents preserved, 3 MiB budget kept, request honoured when it fits, otherwise by true digest with the bytes in the CAS; conditions and visit order of maybeInline regenerated from the source (Bridge.Inline); GetActionResult compared with the model on generated results around the budget.",
         level_note=NOTE + "the validator's verdicts are compared message by message.", technique=TECH),
     "C14": dict(
